@@ -161,23 +161,40 @@ def run_check(prop, tier, seed, jobs):
     ctx.cov["violation_signatures"] = sorted(new_sigs)[:50]
     rc = 0
     reported = 0
+    confirmations = 0
+    unconfirmed = []
     for s in sorted(new_sigs):
         # smallest case first
         vs = sorted(by_sig[s], key=lambda v: len(json.dumps(v["case"], default=str)))
         v = vs[0]
         path = write_replay(prop, v)
-        if reported < 3 and os.environ.get("VERIF_NO_CONFIRM") != "1":
-            ok, out = confirm(prop, path)
+        if confirmations < 8 and os.environ.get("VERIF_NO_CONFIRM") != "1":
+            # "the same schedule must fail every time": re-run the case from its replay file in a fresh process; a case that only
+            # fails inside the exploring process (state carried over from an earlier case) is not reported as a violation by itself
+            ok = False
+            for cand in vs[:3]:
+                path = write_replay(prop, cand)
+                confirmations += 1
+                ok, out = confirm(prop, path)
+                if ok:
+                    v = cand
+                    break
             if not ok:
-                print("HARNESS-ERROR: case did not reproduce from replay file %s\n%s" % (path, out))
-                write_evidence(ctx, mod.LEVEL, len(ctx.violations))
-                return 2
+                unconfirmed.append((s, path, out))
+                continue
         if reported < 25:
             print("VIOLATION property=%s replay=%s" % (prop, path))
             print("  signature: %s (%d case(s))" % (s, len(vs)))
             print("  detail: %s" % (json.dumps(v["detail"], default=str)[:600]))
         reported += 1
         rc = 1
+    for s, path, out in unconfirmed:
+        print("UNCONFIRMED: signature %s failed during exploration but its replay file %s passes in a fresh process%s\n%s" % (
+            s, path, " (reported violations above are confirmed)" if rc else "", out[-400:]))
+    if unconfirmed and rc == 0:
+        print("HARNESS-ERROR: no violation of this run reproduces from its replay file")
+        write_evidence(ctx, mod.LEVEL, len(ctx.violations))
+        return 2
     write_evidence(ctx, mod.LEVEL, sum(len(by_sig[s]) for s in new_sigs))
     c = ctx.cov
     summary = {k: c[k] for k in ("states", "transitions", "evaluations", "distinct_nontrivial",
